@@ -21,9 +21,11 @@ def _filtered(f):
     e = os.environ.get('VF_CASE_FILTER')
     return f if not e else (lambda tier: [c for c in f(tier) if eval(e, {'c': c})])
 
+# loops of the real code reached: the walk over the write queue in handle_execute_write_request (l2cap_input is inlined into the shim's
+# vf_d9_input, loops 0..7 for the two servers); one element is queued at most, bound 2; unwinding assertions are on
 PROPERTY = Property(
     'C09',
-    [Harness('c09_cccd', U, 'harness/c09_cccd.c', _filtered(cases), unwind=9, timeout=900, object_bits=12, diff_iters=200,
+    [Harness('c09_cccd', U, 'harness/c09_cccd.c', _filtered(cases), unwind=9, unwindset=['vf_d9_input.%d:2' % i for i in range(8)], timeout=1500, object_bits=12, diff_iters=100,
              description='one write (Write Request / Write Command / Prepare+Execute with offset) to an arbitrary handle by connection A or B from arbitrary '
                          'configuration bytes of both connections; all 14 CCCDs read through ATT before and after; callback counted; '
                          'plus CCCD <-> characteristic association through notify<UUID>/indicate<UUID> and l2cap_output',
